@@ -1,0 +1,25 @@
+//go:build verif
+// +build verif
+
+package leaves
+
+// Verification hooks for property C09 (hibernation is transparent, its I/O failures surface).
+// Add-only, read-only accessors.
+
+// VerifC09ArenaSize returns fileAllocator.Size(): the length of the node arena, 0 while it is hibernated.
+func (analyser *BurndownAnalysis) VerifC09ArenaSize() int {
+	if analyser.fileAllocator == nil {
+		return -1
+	}
+	return analyser.fileAllocator.Size()
+}
+
+// VerifC09HibernatedFileName returns the path of the temporary file that holds the serialized arena ("" if none).
+func (analyser *BurndownAnalysis) VerifC09HibernatedFileName() string {
+	return analyser.hibernatedFileName
+}
+
+// VerifC09TrackedFiles returns the number of tracked files of this branch.
+func (analyser *BurndownAnalysis) VerifC09TrackedFiles() int {
+	return len(analyser.files)
+}
